@@ -44,6 +44,9 @@ def gen_history(rng, length, malformed_rate=0.08):
                         fl |= bit
                 if fl:
                     kind += "+%x" % fl
+            if rng.random() < 0.3:
+                # the predecessor blocks another signal while it runs: none of the library's business afterwards
+                kind += "~%d" % rng.choice([12, 10, 15, 2])
             ops.append("foreign %d %s" % (sig, kind))
         elif r < 0.50:
             ops.append("%s %d %d" % (rng.choice(["reg", "regsa", "regu", "regusa"]), sig, tag)); tag += 1
